@@ -45,6 +45,15 @@ def run_one(prop, shared, tier, seed, only=None):
             ctx.findings = [f for f in ctx.findings if f.rule == only or f.rule.startswith(only + '.')]
         return finish(ctx, mod.EXPLANATION, mod.ASSUMPTIONS, mod.NOT_DECIDED)
     except AnalysisError as e:
+        if ctx.findings:
+            # something was already positively identified as violated: report it; the analysis error is a note
+            ctx.notes.append('analysis stopped early: %s' % e)
+            print('NOTE property=%s analysis stopped early after findings: %s' % (prop, e))
+            try:
+                ctx.floors = []
+                return finish(ctx, mod.EXPLANATION, mod.ASSUMPTIONS, mod.NOT_DECIDED)
+            except AnalysisError:
+                pass
         print('ANALYSIS-ERROR property=%s %s' % (prop, e))
         return 2
     except Exception as e:   # a crash of the analyser is never a verdict
